@@ -71,7 +71,7 @@ m("alias-in-dropped", ["C08", "C01"], "src/parser.rs",
   '"implies" | "in" => result.push(SymbolicBDDToken::Implies),',
   '"implies" => result.push(SymbolicBDDToken::Implies),',
   "alias `in` no longer a keyword (becomes a variable)")
-m("ordering-counter-from-len", ["C11", "C10"], "src/parser.rs",
+m("ordering-counter-from-len", ["C11"], "src/parser.rs",
   """                if var.id >= var_id_counter {
                     var_id_counter = var.id + 1;
                 }""",
@@ -271,7 +271,7 @@ m("table-subtrees-swapped", ["C10", "C07", "C11", "C20"], "src/bin/rsbdd.rs",
   """            r_vars[parsed.to_free_index(s)] = TruthTableEntry::True;
             print_truth_table_recursive(r, r_vars, filter, parsed, sizes);""",
   "truth table: the false subtree is printed with the variable marked True")
-m("header-from-vars", ["C10", "C09"], "src/bin/rsbdd.rs",
+m("header-from-vars", ["C10"], "src/bin/rsbdd.rs",
   """    let mut headers = input_parsed
         .free_vars""",
   """    let mut headers = input_parsed
